@@ -620,7 +620,7 @@ func init() {
 			for sc := 0; sc <= 6; sc++ {
 				js = append(js, J(".", "VX_C14_Races", sc, 0))
 			}
-			js = append(js, J(".", "VX_C14_Races", 0, 1), J(".", "VX_C14_Races", 4, 1), J(".", "VX_C14_Races", 14, 0), J(".", "VX_C14_Races", 15, 0))
+			js = append(js, J(".", "VX_C14_Races", 0, 1), J(".", "VX_C14_Races", 4, 1), J(".", "VX_C14_Races", 14, 0), J(".", "VX_C14_Races", 15, 0), J(".", "VX_C14_Races", 16, 0))
 			js = append(js, J(".", "VX_C14_DisconnectWhileLaunching", 0), J(".", "VX_C14_DisconnectWhileLaunching", 1), J(".", "VX_C14_DisconnectWhileLaunching", 0, 1), J(".", "VX_C14_DisconnectWhileLaunching", 1, 2))
 			js = append(js, J(".", "VX_C14_Races", 7, 0), J(".", "VX_C14_Races", 8, 0), J(".", "VX_C14_Races", 7, 1), J(".", "VX_C14_Races", 8, 1), J(".", "VX_C14_Races", 9, 0), J(".", "VX_C14_Races", 10, 0), J(".", "VX_C14_Races", 11, 0), J(".", "VX_C14_Races", 12, 0), J(".", "VX_C14_Races", 13, 0))
 			if tier == "thorough" {
